@@ -60,6 +60,12 @@ def gen_case(rnd, i):
                 r["delay"] = gen.delay_spec(rnd, species, params, tag)
                 r["delay"]["reactants"] = []
             rx.append(r)
+        ma = [r for r in rx if r["type"] == "massaction"]
+        if i % 4 == 1 and len(ma) >= 2:
+            # one parameter dictionary written once and used for several reactions (the same Python object)
+            for r in ma:
+                r["fields"] = dict(ma[0]["fields"])
+                r["share"] = "g0"
         x0 = {s: (float(rnd.randint(0, 20)) if rnd.random() < 0.4 else float("%.5g" % rnd.uniform(0, 20))) for s in species}
         sp = {"species": species, "x0": x0, "params": params, "reactions": rx, "rules": []}
         # horizon from the Jacobian norm at x0 (finite differences on the reference rhs)
@@ -219,6 +225,8 @@ def run_case(case):
                          "msg": "%s (%s grid, %s): species %s at t=%g is %r, exact solution %r (tolerance %.2g)" % (
                              name, case["grid_kind"], kind, species[j], tp[i], X[i, j], ref1[i, j], tol[j])})
     C["linear_cases" if case["linear"] else "nonlinear_cases"] += 1
+    if any(r.get("share") for r in sp["reactions"]):
+        C["cases_with_shared_parameter_dict"] += 1
     if case["tdep"]:
         C["time_dependent_cases"] += 1
     if any(r.get("delay") for r in sp["reactions"]):
